@@ -141,7 +141,7 @@ def c19(ctx):
     thorough = ctx.tier == "thorough"
     ctx.build()
     ctx.assumptions += ["loopback TCP is available; parties are goroutines in one process with real sockets",
-                        "every party calls Join only after the leader's Create returned",
+                        "in the gate-driven runs every party calls Join after the leader's Create returned; a joiner that starts first and retries is a scenario of its own",
                         "the accept queue of a listener is FIFO in connection order"]
     # (M) all interleavings of the main threads and accept goroutines
     mcs = [(3, 2), (4, 1), (2, 2)] + ([(4, 2), (5, 1), (3, 4)] if thorough else [])
